@@ -172,6 +172,8 @@ CASES = {
     'scalar_sub': lambda np, a, b: np.ma.getdata(a).min() - np.ma.getdata(a).max(), 'arr_minus_min': lambda np, a, b: np.ma.getdata(a) - np.ma.getdata(a).min(),
     'scalar_minus_py': lambda np, a, b: np.ma.getdata(a).max() - 1, 'scalar_times_neg': lambda np, a, b: np.ma.getdata(a).max() * -1, 'scalar_mixed': lambda np, a, b: np.ma.getdata(a).max() - np.ma.getdata(b).max(),
     'arr_minus_scalar_b': lambda np, a, b: np.ma.getdata(a) - np.ma.getdata(b).max(), 'normalize': lambda np, a, b: (np.ma.getdata(a) - np.ma.getdata(a).min()) * (0 - 1) / (np.ma.getdata(a).min() - np.ma.getdata(a).max() - 1) + 0,
+    'ma.average_axis0': lambda np, a, b: np.ma.average(np.ma.stack([a, b]), axis=0, weights=[2, 0.5]), 'ma.average_all': lambda np, a, b: np.ma.average(a, weights=np.ma.getdata(b) * 0 + 1.5),
+    'mask_ior': lambda np, a, b: _maskior(np, a, b),
     'can_cast': lambda np, a, b: bool(np.can_cast(a.dtype, b.dtype, 'safe')),
     'count_nonzero': lambda np, a, b: np.count_nonzero(np.ma.getdata(a)), 'power3': lambda np, a, b: np.power(np.ma.getdata(a), 3),
 }
@@ -181,6 +183,13 @@ def _out(np, f, a, b):
     r = a.copy()
     x = f(r, b, out=r)
     return (x, r)
+
+
+def _maskior(np, a, b):
+    a = np.ma.array(a, copy=True)
+    m = np.ma.asarray(a).mask
+    m |= np.ma.asarray(b).mask
+    return (m, a)
 
 
 def _sorted(np, x):
